@@ -57,6 +57,8 @@ type testGen struct {
 	line  int
 	cases []tcase
 	n     int
+	// dynamic: some root-level case registers a suite while it runs
+	dynamic bool
 }
 
 func (g *testGen) emit(s string) {
@@ -113,6 +115,40 @@ func (g *testGen) suite(depth int, prefix []string, suiteLines []int, ind string
 		}
 		outcome := Pick(g.r, []string{"pass", "pass", "pass", "fail", "error"})
 		start := g.line + 1
+		if depth == 0 && g.r.Chance(0.15) {
+			// a root-level case that registers a suite with one or two cases while it runs: the
+			// runner has to run those too (they are appended to the root suite during the run)
+			g.dynamic = true
+			g.emit(fmt.Sprintf("%s%s \"%s\" ->", ind, kind, label))
+			g.n++
+			sname := fmt.Sprintf("generated s%d", g.n)
+			g.emit(fmt.Sprintf("%s  describe \"%s\" ->", ind, sname))
+			sline := g.line
+			var inner []tcase
+			for k, nk := 0, g.r.Range(1, 2); k < nk; k++ {
+				g.n++
+				ilabel := fmt.Sprintf("inner c%d", g.n)
+				iout := Pick(g.r, []string{"pass", "pass", "fail", "error"})
+				istart := g.line + 1
+				g.emit(fmt.Sprintf("%s    test \"%s\" ->", ind, ilabel))
+				switch iout {
+				case "pass":
+					g.emit(ind + "      assert! 2 == 2")
+				case "fail":
+					g.emit(ind + "      assert! 2 == 3")
+				default:
+					g.emit(ind + "      throw unchecked 6")
+				}
+				g.emit(ind + "    end")
+				inner = append(inner, tcase{Name: sname + " > " + ilabel, Line: istart, EndLine: g.line, Outcome: iout, Suites: []int{sline}})
+			}
+			g.emit(ind + "  end")
+			g.emit(ind + "end")
+			name := strings.Join(append(append([]string{}, prefix...), full), " > ")
+			g.cases = append(g.cases, tcase{Name: name, Line: start, EndLine: g.line, Outcome: "pass", Suites: append([]int{}, suiteLines...), HookFail: hookFails})
+			g.cases = append(g.cases, inner...)
+			continue
+		}
 		g.emit(fmt.Sprintf("%s%s \"%s\" ->", ind, kind, label))
 		if g.r.Bool() {
 			g.emit(ind + "  x := 1 + 1")
@@ -151,14 +187,14 @@ func (g *testGen) suite(depth int, prefix []string, suiteLines []int, ind string
 	emitHooks(2)
 }
 
-func genTestProgram(r *Rand) (string, []tcase, int) {
+func genTestProgram(r *Rand) (string, []tcase, int, bool) {
 	g := &testGen{r: r}
 	g.emit("import \"std/test\"")
 	g.emit("using Std::Test::Assertions::*")
 	g.emit("using Std::Test::*")
 	g.emit("")
 	g.suite(0, nil, nil, "", false)
-	return g.b.String(), g.cases, g.line
+	return g.b.String(), g.cases, g.line, g.dynamic
 }
 
 type c34Engine struct{}
@@ -170,7 +206,7 @@ func (*c34Engine) Property() string { return "C34" }
 
 func (*c34Engine) Generate(seed uint64, tier string) *Case {
 	r := NewRand(seed)
-	src, cases, lines := genTestProgram(r)
+	src, cases, lines, dynamic := genTestProgram(r)
 	p := testParams{Src: src, Cases: cases, Seed: r.U64(), Capacity: Pick(r, []int{1, 1, 2, 3, 10, 50}), ReporterStall: Pick(r, []int{0, 0, 1, 5, 40})}
 	if r.Chance(0.3) {
 		p.ReporterSleepMs = Pick(r, []int{5, 400, 1500, 3000, 20000})
@@ -179,7 +215,7 @@ func (*c34Engine) Generate(seed uint64, tier string) *Case {
 			p.Capacity = Pick(r, []int{1, 2, 3}) // a small buffer fills at once
 		}
 	}
-	if r.Chance(0.45) {
+	if r.Chance(0.45) && !dynamic {
 		// grep: a word, a case id, an alternation or an anchored name
 		switch r.Intn(4) {
 		case 0:
@@ -195,7 +231,7 @@ func (*c34Engine) Generate(seed uint64, tier string) *Case {
 			p.Grep = "s" + fmt.Sprint(r.Range(1, 8)) + "\\b"
 		}
 	}
-	if r.Chance(0.5) {
+	if r.Chance(0.5) && !dynamic {
 		// one to three --path filters (the flag is a list); later filters are biased
 		// towards the lines of one anchor case and of its enclosing blocks, so that
 		// combinations with a non-empty intersection are common
@@ -438,7 +474,7 @@ func (*c34Engine) Execute(t *testing.T, c *Case) *Verdict {
 	}
 	sort.Strings(got)
 	v.Nontrivial = len(p.Cases) > 0 && (p.Grep != "" || len(p.Paths) > 0 || res.Switches > 2)
-	v.Extra = map[string]int64{"cases": int64(len(p.Cases)), "selected": int64(len(want)), "with_grep": b2i(p.Grep != ""), "with_path": b2i(len(p.Paths) > 0), fmt.Sprintf("paths_%d", len(p.Paths)): 1, fmt.Sprintf("capacity_%d", p.Capacity): 1, "reporter_sleeps": b2i(p.ReporterSleepMs > 0), "empty_selection": b2i(len(want) == 0)}
+	v.Extra = map[string]int64{"cases": int64(len(p.Cases)), "selected": int64(len(want)), "with_grep": b2i(p.Grep != ""), "with_path": b2i(len(p.Paths) > 0), fmt.Sprintf("paths_%d", len(p.Paths)): 1, fmt.Sprintf("capacity_%d", p.Capacity): 1, "reporter_sleeps": b2i(p.ReporterSleepMs > 0), "suites_registered_at_run_time": b2i(strings.Contains(p.Src, "describe \"generated s")), "empty_selection": b2i(len(want) == 0)}
 	v.Sample = map[string]any{"filters": filters, "cases": len(p.Cases), "selected": want, "started": rep.started}
 	grepAndLine := p.Grep != "" && len(p.Paths) > 0
 	if d := diffMultiset(want, got); d != "" {
